@@ -260,6 +260,23 @@ class ParamIter(object):
         return 'ParamIter(%r)' % (self.src,)
 
 
+class Opt(object):
+    """element of a sequence that is only there when a decision key takes one of the allowed values
+    (a parameter word that may or may not be present in the command)"""
+    __slots__ = ('key_', 'allowed', 'value')
+
+    def __init__(self, key_, allowed, value):
+        self.key_ = key_
+        self.allowed = frozenset(allowed)
+        self.value = value
+
+    def key(self):
+        return ('opt', repr(self.key_), tuple(sorted(self.allowed)), vkey(self.value))
+
+    def __repr__(self):
+        return 'Opt(%r)' % (self.value,)
+
+
 class FuncV(object):
     """module-level function or lambda of the analysed package"""
     __slots__ = ('mod', 'fn')
